@@ -274,10 +274,10 @@ def absorb_rejections(ctx, rej, family, trace_file, only=None):
             lines = open(trace_file).read().splitlines()
             i0 = items[0][0] - 1
             a = i0
-            while a > 0 and '"TraceReset"' not in lines[a] and '"WireReset"' not in lines[a]:
+            while a > 0 and '"TraceReset"' not in lines[a] and '"WireReset"' not in lines[a] and '"PoolReset"' not in lines[a]:
                 a -= 1
             b = i0 + 1
-            while b < len(lines) and '"TraceReset"' not in lines[b] and '"WireReset"' not in lines[b]:
+            while b < len(lines) and '"TraceReset"' not in lines[b] and '"WireReset"' not in lines[b] and '"PoolReset"' not in lines[b]:
                 b += 1
             open(dst, "w").write("\n".join(lines[a:b]) + "\n")
         except Exception:
